@@ -4,10 +4,10 @@ CONSTANTS
   MaxBodies = 4
   JTypes <- AllJ
   Axes <- Ax6
-  Offsets <- K_Off
+  Offsets <- D_OffMix
   Rots <- K_Rot
   Anchors <- K_Anc
-  SitePos <- K_Site
+  SitePos <- D_Site0
   SiteRots <- K_SRot
   Masses <- D_Mass
   Inertias <- K_Inr
@@ -27,7 +27,11 @@ CONSTANTS
   TenRanges <- Rng0
   TenDamps <- One0
   TenArms <- D_TArm
+  TenZero <- BothTz
+  SpPairs <- D_Sp
+  SpArms <- D_SpArm
   Level = 2
+  Tie = FALSE
   Rand = TRUE
 INVARIANT TypeOK
 INVARIANT FramesProper
@@ -40,4 +44,6 @@ INVARIANT KineticIsQuadratic
 INVARIANT BiasAtRestIsGravity
 INVARIANT SlideBiasVelFree
 INVARIANT VelIsRecursive
+INVARIANT SpatialJacIsDerivative
+INVARIANT SpatialMassOK
 CHECK_DEADLOCK FALSE
